@@ -35,6 +35,20 @@ def races_in(stderr):
     return eng, other
 
 
+def finishing_together(n, repeats):
+    from vlib import lit, ref, tmap
+    wf = {'steps': {}, 'outputs': {}}
+    script = {}
+    for i in range(n):
+        sid = 't%02d' % i
+        wf['steps'][sid] = {'kind': 'plugin', 'pstep': 'work', 'fields': {'input': tmap({'id': lit(sid)})}}
+        script[sid] = {'exec': {'out': 'success', 'delay_ms': 2}}
+    wf['outputs']['success'] = tmap({'s%02d' % i: ref('steps.t%02d.outputs.success.tok' % i) for i in range(n)})
+    inp = {'x': 'x', 'n': 1, 'flag': True}
+    return {'wf': wf, 'oc': None, 'script': script, 'input': inp, 'inputs': [inp] * repeats, 'schedule': None,
+            'extra': {'runs': [{'input': inp, 'start_delay_ms': 0} for _ in range(repeats)], 'overlap': False, 'timeout_ms': 60000}}
+
+
 def run(ctx):
     rng = random.Random(ctx.seed * 2711 + 17)
     try:
@@ -51,6 +65,11 @@ def run(ctx):
         for rep in range(1 if ctx.quick else 6):
             items.append(check_c13.loop_item(rng, n, par, outs, delays=[2] * n))
     items += check_c13.items_for(ctx)(rng)[:(4 if ctx.quick else 60)]
+    # several steps finishing in the same instant, the output needing all of them: a completion handler that runs while
+    # another step's notification is still on its way sees nothing running and arms the fallback detector's re-check,
+    # which then wakes up next to the handler that produces the output
+    for n in ([4, 6] if ctx.quick else [2, 3, 4, 6, 8, 12]):
+        items.append(finishing_together(n, 10 if ctx.quick else 25))
     items += check_c06.items_for(ctx)(rng)[:(10 if ctx.quick else 150)]
     scs = []
     for it in items:
